@@ -30,7 +30,36 @@ WEAVER_READERS = [WV + m for m in ('from_2d_array', 'get', 'get_original', 'get_
 EXC = r'^(raises-if|raises-only-if|frame-on-raise|no-raise)::'
 NOT_EXC_NOT_FRAME = r'^(?!raises-if|raises-only-if|frame-on-raise|frame::|class-inv)'
 
+MATCH = [MT + '_integral_matching_stretch', MT + '_interval_integral_matching_stretch', MT + 'integral_matching_reference_stretch']
+C03_CLAUSES = r'ensures::(kernel_profile|kernel_ends_fixed|kernel_idempotent|windows_frame|top_frame)'
+
 PROPS = {
+    'C01': dict(
+        functions=MATCH + [SAU + 'rectangle_integral', SAU + 'trapezoid_integral', SAU + 'integral', SAU + 'sum_over_indices'],
+        select=[('match.', r'^(?!' + C03_CLAUSES + r')')],
+        level='proof',
+        explanation=("Kernel: for every window of >= 2 strictly increasing abscissae, every alpha > 0 and both rules the stretched window "
+                     "integrates exactly to the target (sum lemmas SUM_LIN/SUM_POS/SUM_CONG proved by induction, power axioms); window "
+                     "loop: inductive invariant over the windows (finished windows keep their integral because the shared end samples "
+                     "are written back unchanged); resolution (default designation: closest / lower / higher search): the fixed "
+                     "indices are the indices the C10 specification determines, targets are the reference-rule integrals of the "
+                     "reference intervals. All lengths, all alpha > 0, all 2x2 rule combinations, three search strategies."),
+        assumptions=[A_REAL, A_LEN, "power axioms P1-P8 for POW(r, a) on non-negative bases",
+                     "derived library lemmas: np.unique of a strictly increasing array is the array; np.where(np.isin(x, x.take(c)))[0] == c",
+                     "designation by explicit positions / explicit indices: not covered by the static contract (bounded run-time monitoring only)",
+                     "precondition from the property's quantifier: selected fixed points distinct with >= 1 interior sample per interval",
+                     "the corollary 'first to last fixed point = reference total' follows by SUM_SPLIT; it is not stated as a separate clause"],
+    ),
+    'C03': dict(
+        functions=MATCH,
+        select=[('match.', r'^(?!ensures::(kernel_integral|windows_integrals|top_integrals))')],
+        level='proof',
+        explanation=("Kernel: displacement = yhat * (1 - (2|x - centre|/width)^alpha) with one yhat per window, end samples fixed when "
+                     "there is an interior sample, idempotent on an already matched window; window loop and top level: samples outside "
+                     "the span of the fixed points and the fixed points themselves are unchanged."),
+        assumptions=[A_REAL, A_LEN, "power axioms P1-P8", "same derived library lemmas as C01",
+                     "'matching a matched function changes nothing' is proved per window (kernel_idempotent); the top-level corollary is not restated"],
+    ),
     'C10': dict(
         functions=SCANS,
         level='proof',
@@ -129,7 +158,7 @@ PROPS = {
     'C20': dict(
         functions=[WV + m for m in ('__init__', 'from_2d_array', 'slice_by_index', 'slice_by_value', 'interpolate', 'truncate_by_index',
                                     'truncate_by_value')] + [PR + 'truncate', PR + 'interpolate', SAU + 'integral',
-                                                             SAU + 'find_closest_element_indices_to_values'],
+                                                             SAU + 'find_closest_element_indices_to_values'] + MATCH,
         select=[('', EXC)],
         level='proof',
         explanation=("Exceptional postconditions: each entry point raises ValueError exactly under the stated condition (no other "
